@@ -58,6 +58,11 @@ def build(cases):
            "  real :: rel3(merge(2, 3, 1 < 2))\n"
            "  character(len=count([1 < 2])) :: rel4\n"
            "  character :: banner*(12)\n"
+           "  integer, parameter :: nn = 8\n"
+           "  character(len=nn/2) :: rel6\n"
+           "  logical, parameter :: rel7 = 1 == 1\n"
+           "  real :: rel8(nn/2)\n"
+           "  logical, parameter :: rel9 = nn >= 2 .and. nn /= 3\n"
            "  integer(kind=merge(4, 8, 1 < 2)) :: rel5\n"
            "  type :: holder\n" + "\n".join(comps) + "\n  end type holder\n"
            "contains\n" + "\n".join(procs) + "\n"
@@ -66,6 +71,7 @@ def build(cases):
            # a character length written after the name, in parentheses
            "  function starlen(line, tag) result(res)\n    character line*(*)\n    character :: tag*(3)\n    character res*(8)\n    res = line // tag\n  end function starlen\n"
            "  function fr(a) result(r)\n    integer, intent(in) :: a(merge(2, 3, 1 < 2))\n    integer :: r(merge(2, 3, 1 < 2))\n    r = a\n  end function fr\n"
+           "  function fdiv(k) result(r)\n    integer :: k\n    real, dimension(nn/2) :: r\n    r = k\n  end function fdiv\n"
            "end module m\n")
     return src
 
@@ -213,14 +219,21 @@ def evaluate(job):
         # expressions with relational operators
         for name, want, what in (("rel1", "merge(2,3,1<2)", "initial expression"), ("rel2", "dimension(merge(2,3,1<2))", "dimension attribute"),
                                  ("rel3", "(merge(2,3,1<2))", "dimension on the entity"), ("rel4", "len=count([1<2])", "length expression"),
-                                 ("rel5", "kind=merge(4,8,1<2)", "kind expression")):
+                                 ("rel5", "kind=merge(4,8,1<2)", "kind expression"), ("rel6", "character(len=nn/2)", "length expression with a division"),
+                                 ("rel7", "1==1", "initial expression with =="), ("rel8", "(nn/2)", "dimension with a division"),
+                                 ("rel9", "nn>=2.and.nn/=3", "initial expression with >= and /=")):
             var = byname.get(name)
             row = row_of(pages["module/m.html"], var) if var is not None else None
             if row is None:
                 out.append({"k": None, "bad": f"{what}: {name} not shown"})
                 continue
-            if squash(want) not in squash(row.get_text(" ")):
+            if squash(want) not in squash(row.get_text(" ")) or "../" in row.get_text(" "):
                 out.append({"k": None, "tag": "relop", "bad": f"{what}: module page shows {norm(row.get_text(' '))!r}, source has {want}"})
+        # a function result whose declaration holds a "/" is shown as declared on the module page
+        mtxt = pages["module/m.html"].get_text(" ")
+        if "real,dimension(nn/2)" not in squash(mtxt) or "../real" in squash(mtxt):
+            out.append({"k": None, "tag": "relop", "bad": "function result declared real, dimension(nn/2): the module page does not show it as declared "
+                        + repr([l for l in norm(mtxt).split("fdiv")[1:2]][:1])[:200]})
     return out
 
 
